@@ -10,3 +10,28 @@
 
 template class opentelemetry::sdk::common::CircularBuffer<opentelemetry::sdk::trace::Recordable>;
 template class opentelemetry::sdk::common::AtomicUniquePtr<opentelemetry::sdk::trace::Recordable>;
+
+#include <map>
+#include <string>
+#include <utility>
+#include <vector>
+#include "opentelemetry/trace/tracer.h"
+namespace verif_tu
+{
+// instantiates every inline StartSpan overload of the API Tracer (C05.R6: each forwards all of its parameters)
+inline void use_startspan_overloads(opentelemetry::trace::Tracer &t,
+                                    const opentelemetry::trace::StartSpanOptions &o,
+                                    const opentelemetry::common::KeyValueIterable &kv)
+{
+  namespace tr = opentelemetry::trace;
+  std::map<std::string, std::string> attrs;
+  std::vector<std::pair<tr::SpanContext, std::map<std::string, std::string>>> links;
+  t.StartSpan("n", o);
+  t.StartSpan("n", attrs, o);
+  t.StartSpan("n", kv, o);
+  t.StartSpan("n", attrs, links, o);
+  t.StartSpan("n", {{"k", 1}}, o);
+  t.StartSpan("n", attrs, {{tr::SpanContext::GetInvalid(), {{"k", 1}}}}, o);
+  t.StartSpan("n", {{"k", 1}}, {{tr::SpanContext::GetInvalid(), {{"k", 1}}}}, o);
+}
+}  // namespace verif_tu
